@@ -355,5 +355,69 @@ theorem progress (M : Sys σ ε ο) (s : St σ ε ο) (h : ¬ complete s) :
     | nil => exact absurd hq hp
     | cons o r => exact ⟨.tick, by simp [next, hq]⟩
 
+/-! ### model completeness: every interleaving is produced by some schedule -/
+
+theorem run_append (M : Sys σ ε ο) (s : St σ ε ο) (a b : List Choice) :
+    run M s (a ++ b) = (run M s a).bind (fun s' => run M s' b) := by
+  induction a generalizing s with
+  | nil => simp [run]
+  | cons c cs ih =>
+    simp only [List.cons_append, run]
+    cases next M s c with
+    | none => simp
+    | some s1 => simp [ih]
+
+theorem drain (M : Sys σ ε ο) (p : List ο) (s : St σ ε ο) (hp : s.pending = p) :
+    ∃ s', run M s (List.replicate p.length .tick) = some s' ∧ s'.pending = [] ∧
+      s'.prods = s.prods ∧ s'.fifo = s.fifo ∧ s'.deq = s.deq := by
+  induction p generalizing s with
+  | nil => exact ⟨s, by simp [run], hp, rfl, rfl, rfl⟩
+  | cons o r ih =>
+    have hn : next M s .tick = some { s with pending := r, trace := s.trace ++ [o] } := by
+      simp [next, hp]
+    obtain ⟨s', h1, h2, h3, h4, h5⟩ := ih { s with pending := r, trace := s.trace ++ [o] } rfl
+    refine ⟨s', ?_, h2, h3, h4, h5⟩
+    simp only [List.length_cons, List.replicate_succ, run, hn]
+    exact h1
+
+theorem next_send (M : Sys σ ε ο) (s : St σ ε ο) (i : Nat) (e : ε) (t : List ε)
+    (h : s.prods[i]? = some (e :: t)) :
+    ∃ s1, next M s (.send i) = some s1 ∧ s1.prods = s.prods.set i t ∧ s1.fifo = s.fifo ++ [e] ∧
+      s1.pending = s.pending ∧ s1.deq = s.deq := by
+  simp only [next, h]
+  exact ⟨_, rfl, rfl, rfl, rfl, rfl⟩
+
+theorem next_recv (M : Sys σ ε ο) (s : St σ ε ο) (e : ε) (q : List ε)
+    (hp : s.pending = []) (hf : s.fifo = e :: q) :
+    ∃ s2, next M s .recv = some s2 ∧ s2.deq.map Prod.fst = s.deq.map Prod.fst ++ [e] ∧
+      s2.prods = s.prods ∧ s2.fifo = q := by
+  simp only [next, hp, hf]
+  split
+  · exact ⟨_, rfl, by simp, rfl, rfl⟩
+  · exact ⟨_, rfl, by simp, rfl, rfl⟩
+
+theorem every_merge_is_a_run (M : Sys σ ε ο) (ps : List (List ε)) (out : List ε)
+    (h : IsMergeOf ps out) (st : St σ ε ο) (hps : st.prods = ps) (hp : st.pending = [])
+    (hf : st.fifo = []) :
+    ∃ sched st', run M st sched = some st' ∧ complete st' ∧
+      st'.deq.map Prod.fst = st.deq.map Prod.fst ++ out := by
+  induction h generalizing st with
+  | done hall => exact ⟨[], st, rfl, ⟨hps ▸ hall, hf, hp⟩, by simp⟩
+  | @take ps out i e t hget _ ih =>
+    obtain ⟨st1, h1, hprods1, hfifo1, hp1, hdeq1⟩ := next_send M st i e t (hps ▸ hget)
+    obtain ⟨st2, h2, hdeq2, hprods2, hfifo2⟩ :=
+      next_recv M st1 e [] (hp1.trans hp) (by rw [hfifo1, hf]; rfl)
+    obtain ⟨st3, h3, hp3, hprods3, hfifo3, hdeq3⟩ := drain M st2.pending st2 rfl
+    obtain ⟨sched', st', h4, hc, hd⟩ :=
+      ih st3 (by rw [hprods3, hprods2, hprods1, hps]) hp3 (by rw [hfifo3, hfifo2])
+    refine ⟨[.send i, .recv] ++ (List.replicate st2.pending.length .tick ++ sched'), st', ?_, hc, ?_⟩
+    · rw [run_append]
+      have : run M st [.send i, .recv] = some st2 := by simp [run, h1, h2]
+      rw [this]
+      simp only [Option.bind_some]
+      rw [run_append, h3]
+      exact h4
+    · rw [hd, hdeq3, hdeq2, hdeq1]
+      simp
 end LTS
 end Rfsm.Queue
